@@ -18,7 +18,7 @@ RULE = ("cubes with more than two sub-cubes (multi-axis dims), both cube types, 
         "permutation of the task order (<=4 sub-cubes) or seeded permutations, a deterministic seeded scheduler that "
         "interleaves the worker tasks at source-line granularity, and real ThreadPools of size 1..16 under a 1e-6 s switch "
         "interval; every output compared bit-for-bit (bytes and dtype) with the serial run; the region views handed to the "
-        "tasks are checked pairwise with numpy.shares_memory. Non-trivial = at least 3 sub-cubes; distinct by (cube, "
+        "tasks are checked pairwise with numpy.shares_memory; one cube object over a history pooled / cancelled by its check_interrupt callback (Exception, BaseException) / pooled / serial / pooled, every completed evaluation compared with the serial output of a fresh cube. Non-trivial = at least 3 sub-cubes; distinct by (cube, "
         "aggregates, pool, schedule seed)")
 ASSUMPTIONS = ["the GIL and NumPy's internal locking; allocator behaviour; diagnostic counters are outside the property"]
 TRUSTED = ["harness/pool_common.py (permuting pool, seeded line-level scheduler)"]
@@ -144,6 +144,7 @@ def run(ctx):
                 ctx.oracle_fail("serial calculate raised %s: %s" % (type(e).__name__, str(e)[:80]), desc, cls="C16-serial-raises")
                 continue
             views_check(ctx, kind, case, desc)
+            lived_cube(ctx, kind, case, fs, serial, desc)
             schedules = []
             if nsub <= 4:
                 for s in range(min(24 if ctx.scale > 1 else 6, len(list(itertools.permutations(range(nsub)))))):
@@ -185,6 +186,61 @@ def run(ctx):
                         cls="C16-differs")
                 if isinstance(pool, P.SeededInterleavingPool):
                     ctx.hit("line_switches", pool.switches)
+
+
+class Halt(BaseException):
+    """what an embedding application raises from check_interrupt to cancel an evaluation"""
+
+
+def lived_cube(ctx, kind, case, fs, serial, desc):
+    """ONE cube object over a history of use: pooled; pooled again and cancelled part-way by its check_interrupt
+    callback (an Exception, then a BaseException); pooled once more; serial.  Every completed evaluation must equal
+    the serial output of a fresh cube: an earlier evaluation, finished or cancelled, leaves nothing behind."""
+    cube = build(kind, case)
+    steps = [("pooled", None), ("cancelled", ValueError), ("pooled", None), ("cancelled", Halt), ("pooled", None),
+             ("serial", None), ("pooled", None)]
+    for n, (what, exc) in enumerate(steps):
+        funcs = [f for _, f in funcs_for_same(kind, case, fs)]
+        hdesc = dict(desc, history=[w if e is None else "%s(%s)" % (w, e.__name__) for w, e in steps[:n + 1]])
+        ctx.case(hdesc, nontrivial=True)
+        ctx.hit("history:" + what)
+        calls = [0]
+        stop_at = ctx.rng.randrange(0, 3)
+
+        def cb():
+            calls[0] += 1
+            if calls[0] > stop_at:
+                raise exc("cancelled by the application")
+        cube.check_interrupt = cb if exc is not None else None
+        try:
+            if what == "serial":
+                cube.parallel = False
+                out = cube.calculate(funcs)
+            else:
+                res = P.run_with_timeout(lambda: run_pooled(kind, cube, funcs, P.PermutedPool(ctx.rng.randrange(10**6))), 60)
+                if res[0] == "timeout":
+                    ctx.oracle_fail("%s: pooled calculate of a re-used cube did not return within 60 s (history %s)" % (
+                        kind, hdesc["history"]), hdesc, cls="C16-history")
+                    return
+                if res[0] == "raise":
+                    raise res[1]
+                out = res[1]
+        except BaseException as e:
+            if exc is not None and isinstance(e, exc):
+                continue
+            if isinstance(e, (KeyboardInterrupt, SystemExit)):
+                raise
+            ctx.oracle_fail("%s: %s evaluation of a re-used cube raised %s: %s (history %s)" % (
+                kind, what, type(e).__name__, str(e)[:60], hdesc["history"]), hdesc, cls="C16-history")
+            return
+        finally:
+            cube.check_interrupt = None
+        if exc is not None:
+            continue        # the callback was never reached (nothing to cancel): a completed run, compared below
+        if flat_bytes(out) != serial:
+            ctx.oracle_fail("%s: %s evaluation of a cube object with the history %s differs from the serial output of a "
+                            "fresh cube" % (kind, what, hdesc["history"]), hdesc, cls="C16-history")
+            return
 
 
 def funcs_for_same(kind, case, fs):
